@@ -1,10 +1,10 @@
 (** Dispatcher used by generated case files. *)
 From VG Require Export Corr.Base.
-From VG Require Import Corr.CorrTimeout Corr.CorrLeaf.
+From VG Require Import Corr.CorrTimeout Corr.CorrLeaf Corr.CorrRouter.
 Open Scope Z_scope.
 
-Definition runners : list runner := [run_timeout; run_leaf].
-Definition monitors : list monitor_t := [mon_timeout; mon_leaf].
+Definition runners : list runner := [run_timeout; run_leaf; run_router].
+Definition monitors : list monitor_t := [mon_timeout; mon_leaf; mon_router].
 
 Definition run (suite : bytes) (i : V) : option V := first_some (map (fun r => r suite i) runners).
 Definition monitor (suite : bytes) (i o : V) : option bool := first_some (map (fun m => m suite i o) monitors).
